@@ -4,6 +4,7 @@ import (
 	"fmt"
 	"math/rand"
 	"strings"
+	"sync"
 	"testing"
 	"testing/synctest"
 	"time"
@@ -43,7 +44,8 @@ type trafficOpts struct {
 	BigPayloads  bool
 }
 
-var defaultNames = []string{"a/b", "a/c", "x", "ab", "cd", "pre/one", "pre/two", "pre/cl3", "pre/three", "long/topic/name/with/levels", "a/b/c"}
+var defaultNames = []string{"a/b", "a/c", "x", "ab", "cd", "pre/one", "pre/two", "pre/cl3", "pre/three", "long/topic/name/with/levels", "a/b/c",
+	"\u010d\u017e" /* 2 characters, 4 bytes */, "\u20aca" /* 2 characters, 4 bytes */, "\u00e9" /* 1 character, 2 bytes: a legal short name */, "r/1", "r/2"}
 
 func trafficPredef(rng *rand.Rand) topics.PredefinedTopics {
 	switch rng.Intn(4) {
@@ -82,7 +84,16 @@ func runTraffic(t *testing.T, c *rt.Case, rng *rand.Rand, o trafficOpts) *GWRun 
 	bubble(t, func() {
 		w := world.New(cfg)
 		b := world.NewBroker(bcfg)
-		s := w.NewSession(peerHandler(PeerOpts{WillTopic: "w/t", WillQoS: 1, WillMsg: []byte("bye")}), b.Handler())
+		// the client refuses the first REGISTER of the names r/1 and r/2 (e.g. out of memory), accepts later ones
+		var refusedOnce sync.Map
+		po := PeerOpts{WillTopic: "w/t", WillQoS: 1, WillMsg: []byte("bye"), RejectRegister: func(name string) bool {
+			if name != "r/1" && name != "r/2" {
+				return false
+			}
+			_, seen := refusedOnce.LoadOrStore(name, true)
+			return !seen
+		}}
+		s := w.NewSession(peerHandler(po), b.Handler())
 		synctest.Wait()
 		model := monitors.NewTopicModel(pre)
 		fed := 0
@@ -130,6 +141,11 @@ func runTraffic(t *testing.T, c *rt.Case, rng *rand.Rand, o trafficOpts) *GWRun 
 		pickID := func() (uint8, uint16) {
 			r := rng.Intn(10)
 			def := model.Definite()
+			if rej := model.Rejected(); len(rej) > 0 && r == 9 {
+				for id := range rej {
+					return 0, id
+				}
+			}
 			switch {
 			case r < 4 && len(def) > 0:
 				var ids []uint16
